@@ -86,6 +86,9 @@ func main() {
 			}
 		}()
 		d.run(c)
+		if c.Thorough() {
+			c.Variants = runVariants(c)
+		}
 		c.finish()
 	}()
 	if *out == "" {
